@@ -51,5 +51,9 @@ def cases3() -> List[Dict[str, Any]]:
     # a package that re-exports a module which imports the package back while it is still analysed
     A(case("reexport-of-module-importing-back", {"a/__init__.py": "__all__ = ['m']\nfrom b import m\n", "b/__init__.py": "", "b/m.py": "import a\nclass K: pass\n"},
            roots=["a", "b"]))
+    for k, roots in enumerate((["pkg", "y.py"], ["y.py", "pkg"])):
+        A(case(f"module-reexported-while-analysed-{k}", {"pkg/__init__.py": "", "pkg/x.py": "import y\nclass X: pass\n", "y.py": "from pkg import x\n__all__ = ['x']\n"}, roots=roots))
+    A(case("root-module-named-index", {"index.py": "def f():\n    'doc'\nclass K: pass\n"}, roots=["index.py"]))
+    A(case("setter-named-like-nested-class", {"pk/m.py": "class A:\n    class x: pass\n    @x.setter\n    def x(self, v): pass\n    @property\n    def y(self): pass\n    class y: pass\n"}))
     A(case("huge-hex-integer", {"pk/m.py": "X = 0x" + "f" * 4000 + "\n'doc'\ndef f(a=0x" + "e" * 3800 + "): pass\n"}))
     return out
